@@ -108,6 +108,33 @@ def p_array(n, v, h):
     return "ok" if ok else "array-mismatch"
 
 
+def p_sequence(v, h):
+    """numpy-array altitudes and repeated calls give the scalar single-call results (no state between calls)"""
+    import numpy as np
+    hs = np.array([h, h * 0.5 + 100.0, 11000.0, h])
+    vs = np.array([v, v * 0.7, v * 1.2, v + 1.0])
+    want = {}
+    for n in ("tas2eas", "eas2tas", "tas2cas", "cas2tas", "tas2mach"):
+        want[n] = [float(call(n, float(a), float(b))) for a, b in zip(vs, hs)]
+    wd = [float(call("density", float(b))) for b in hs]
+    bad = []
+    for rep in range(2):
+        for n in ("tas2eas", "eas2tas", "tas2cas", "cas2tas", "tas2mach"):
+            r = call(n, vs, hs)
+            if not all(rel(float(x), y, 1e-12) for x, y in zip(r, want[n])):
+                bad.append("%s#%d" % (n, rep))
+        r = call("density", hs)
+        if not all(rel(float(x), y, 1e-12) for x, y in zip(r, wd)):
+            bad.append("density#%d" % rep)
+        p_, rho, T = call("atmos", hs)
+        if not all(rel(float(a), float(b * 287.05287 * c), 1e-12) for a, b, c in zip(p_, rho, T)):
+            bad.append("p=rhoRT#%d" % rep)
+        rt = call("eas2tas", call("tas2eas", vs, hs), hs)
+        if not all(rel(float(x), float(y), 1e-9) for x, y in zip(rt, vs)):
+            bad.append("roundtrip#%d" % rep)
+    return "ok" if not bad else ",".join(bad)
+
+
 def k_antipodal(rec):
     return rec["got"] == "nan" and (rec.get("info") or {}).get("antipodal")
 
@@ -132,6 +159,7 @@ def cases(ctx):
             yield dict(op=None, real=("h:props.C20.p_speed", [v, h]), expect="ok", tag="laws")
         yield dict(op=None, real=("h:props.C20.p_array", [rng.choice(["tas2cas", "cas2tas", "tas2eas", "tas2mach"]), rng.uniform(1, 400), h]),
                    expect="ok", tag="array")
+        yield dict(op=None, real=("h:props.C20.p_sequence", [rng.uniform(1, 400), h]), expect="ok", tag="sequence")
     # coordinates
     pairs = [(0.0, 0.0, 0.0, 0.0), (52.0, 4.0, 52.0, 4.0), (90.0, 0.0, -90.0, 0.0), (0.0, 0.0, 0.0, 180.0), (10.0, 20.0, -10.0, -160.0),
              (-71.936, -77.566, 71.936, 102.434), (45.0, 179.9, 45.0, -179.9), (89.9, 10.0, 89.9, -170.0)]
